@@ -28,10 +28,12 @@ CHECKS = {
     "C02": ("sm", SM_TECH, SM_TEXT, "4 (sm engine, C02)"),
     "C03": ("sm", SM_TECH + "; all 16 ordered parameter subsets on each decorator", SM_TEXT, "4 (sm engine, C03)"),
     "C04": ("sm", SM_TECH, SM_TEXT, "4 (sm engine, C04)"),
+    "C12": ("smdef", "exhaustive product enumeration of StateMachine class definitions (state variants x inheritance layouts incl. overriding, mix-ins, diamonds; every StateMachine attribute name; every parameter kind/name/position) against an independent definition model built on Python's MRO", "Every definition in the finite families is exec'd with the real decorators and instantiated; the expected error set / state table comes from an independent model.", "4 (smdef engine)"),
     "C13": ("sm", SM_TECH + " (AutonomousStateMachine shapes, bracketed on_enable/on_iteration/on_disable histories)", SM_TEXT, "4 (sm engine, C13)"),
     "C05": ("robot", ROBOT_TECH + "; oracle = loop model (callback order, iteration instants on the P grid, /robot/mode)", ROBOT_TEXT, "4 (robot engine, C05)"),
     "C06": ("robot", ROBOT_TECH + "; oracle = lifecycle monitors on the callback log", ROBOT_TEXT, "4 (robot engine, C06)"),
     "C07": ("robot", ROBOT_TECH + " x exhaustive fault plans (every callback site x first/second/every call, all site pairs); differential oracle against the fault-free run", ROBOT_TEXT, "4 (robot engine, C07)"),
+    "C08": ("inject", "exhaustive product enumeration of robot/component/autonomous-mode definitions, each built as a real MagicRobot and run through robotInit(), against an independent injection model (identity of the injected object or MagicInjectError)", "The definition family is a finite product of feature domains; every point is executed, so the claim is complete coverage of that family.", "4 (inject engine)"),
     "C09": ("nt", "exhaustive product enumeration of tunable definitions/owners/subtables/writeDefault/pre-existing values, plus closed explicit-state exploration of python-side and NetworkTables-side read/write interleavings on two instances of one class against a dict model", "The definition family is enumerated completely; the read/write behaviour is a finite machine (value of each instance's topic) whose every state x operation is executed on the real tunables with independent NT publishers/subscribers.", "4 (nt engine)"),
     "C10": ("robot", ROBOT_TECH + " x all 16 assignment scripts x single fault plans; reset model replayed over the observed callback order", ROBOT_TEXT, "4 (robot engine, C10)"),
     "C11": ("robot", ROBOT_TECH + " x fault plans on getters; independent NetworkTables read after every iteration", ROBOT_TEXT, "4 (robot engine, C11)"),
